@@ -212,6 +212,25 @@ func oracleGD(ctx *hx.Ctx, idx int, ops []gop, res []struct {
 					return
 				}
 			} else {
+				// outside the domain of the overflow-freedom theorem (C15_rtptime_mad_exact / late_track: more than
+				// 2^62/rate seconds of leading-track time, i.e. decades at 1 Hz against a 2^31 Hz track) the
+				// int64 arithmetic wraps; the correspondence still compares those cases, the oracle does not
+				abs := func(x int64) int64 {
+					if x < 0 {
+						return -x
+					}
+					return x
+				}
+				lim := new(big.Int).Lsh(big.NewInt(1), 62)
+				q1 := new(big.Int).Mul(big.NewInt(abs(leadPTS/leadRate)+1), big.NewInt(int64(p.rate)))
+				q2 := new(big.Int).Mul(big.NewInt(abs((p.now-leadSys)/1000000000)+1), big.NewInt(int64(p.rate)))
+				if q1.Cmp(lim) >= 0 || q2.Cmp(lim) >= 0 {
+					ctx.Kind("late track outside the no-overflow domain (oracle skipped)")
+					if lead == p.tid {
+						leadPTS, leadSys = r.pts, p.now
+					}
+					continue
+				}
 				// exact = leadPTS*rate/leadRate + (now-leadSys)*rate/1e9
 				ex := new(big.Rat).Add(
 					big.NewRat(0, 1).SetFrac(new(big.Int).Mul(big.NewInt(leadPTS), big.NewInt(int64(p.rate))), big.NewInt(leadRate)),
